@@ -1,7 +1,7 @@
 \* pipe 2 readers (dd|dc|cc), ranks 0..4, every boundary list within {1,3}, <=3 values, <=3 collections
 \* (tools/props/C07.py generates the same text; thorough tier uses larger constants)
 CONSTANTS MaxRank = 4
-  BoundSets = {{}, {1}, {3}, {1,3}}
+  BoundSets = {{}, {1}, {3}, {1,3}} BOff = 0
   Tables = {"D_small"}
   MMChoices = {TRUE}
   Mode = "pipe" NSlots = 2 NKeys = 1 ReaderCfgs = {11, 12, 22}
